@@ -334,8 +334,10 @@ class Run:
             "wall_s": round(time.time() - self.t0, 2),
             "violations": len(self.violations),
         }
-        (VERIF / "evidence").mkdir(exist_ok=True)
-        (VERIF / "evidence" / (self.prop + ".json")).write_text(json.dumps(ev, indent=1, default=str) + "\n")
+        # runs against another checkout (mutation experiments) must not overwrite the evidence
+        evdir = VERIF / "evidence" if str(REPO) == "/repo" else OUT / "evidence-alt"
+        evdir.mkdir(exist_ok=True)
+        (evdir / (self.prop + ".json")).write_text(json.dumps(ev, indent=1, default=str) + "\n")
         self.log("done: violations=%d wall=%.1fs" % (len(self.violations), time.time() - self.t0))
         return 1 if self.violations else 0
 
